@@ -2,13 +2,19 @@
 from props import _worldprop as WP
 ID = "C06"
 LEAN_TARGETS = ["Rsp.Props.C06"]
-THEOREMS = []
+THEOREMS = ["Rsp.Radmsg.splice_getElem?", "Rsp.Radmsg.splice_splice", "Rsp.Props.C06.stage1_props", "Rsp.Props.C06.serialize_length",
+            "Rsp.Props.C06.serialize_resp_auth", "Rsp.Props.C06.serialize_msgauth"]
 RULE = ("histories through the real radsrv/replyh/clientwr with fake transports; every forwarded request (fwd), transmission (send), delivered/local/replayed reply (out) "
         "is judged by Spec.requestOk / Spec.replyOk on the implementation's bytes; inputs biased to 4000..4096 octets with growing rules, modify results past 253, vendor "
         "growth, Proxy-State echo, Status-Server probes; serializer also called directly. non-trivial = history with at least one emission")
 EXHAUSTIVE = {}
 ASSUMPTIONS = ["MD5/HMAC-MD5 are parameters of the theorems", "configured rule values are at most 253 octets (the parser enforces it)"]
-LEVEL_TEXT = "see theorems"
+LEVEL_TEXT = ("Lean 4 theorems about the serializer every emission goes through (radmsg2buf), for every message and every hash with 16-octet output: the packet's "
+              "length field equals its size and lies in 20..4096 (serialize_length); for Accept/Reject/Challenge/Accounting/NAK the authenticator field is "
+              "MD5(code,id,len | msg.auth | attrs | secret), i.e. a valid Response Authenticator over the client's Request Authenticator resp. a valid Accounting-Request "
+              "authenticator (serialize_resp_auth); the Message-Authenticator equals HMAC-MD5 over the packet with msg.auth in the authenticator field and its value zeroed "
+              "(serialize_msgauth). The World model routes every emission through this function; it is tied to the code by differential histories, and the spec monitor "
+              "evaluates Spec.requestOk / Spec.replyOk on every packet the IMPLEMENTATION emitted (forwarded, transmitted, delivered, local, replayed).")
 LEVEL_NOTE = "Trusted: Lean kernel + std axioms, harness, generators. Modelled: radmsg2buf, respond, sendreply, _internal_sendrq, rewrite growth paths."
 TECHNIQUE = "Lean 4 proof (serializer well-formedness and authentication) + differential histories + spec monitor on emitted bytes"
 DESIGN_REF = "§5 C06"
